@@ -73,6 +73,7 @@ func multiLineStringCentroid(mls orb.MultiLineString) orb.Point {
 	}
 
 	validCount := 0
+	zeroLength := orb.Point{}
 	for _, ls := range mls {
 		c, d := lineStringCentroidDist(ls)
 		if d == math.Inf(1) {
@@ -84,6 +85,8 @@ func multiLineStringCentroid(mls orb.MultiLineString) orb.Point {
 
 		if d == 0 {
 			d = 1.0
+			zeroLength[0] += c[0]
+			zeroLength[1] += c[1]
 		}
 
 		point[0] += c[0] * d
@@ -99,6 +102,10 @@ func multiLineStringCentroid(mls orb.MultiLineString) orb.Point {
 		point[1] /= float64(validCount)
 		return point
 	}
+
+	// zero length members only count when all members are zero length
+	point[0] -= zeroLength[0]
+	point[1] -= zeroLength[1]
 
 	point[0] /= dist
 	point[1] /= dist
